@@ -127,4 +127,5 @@ def run(n, scn, loop):
 
 if __name__ == '__main__':
     loop = asyncio.new_event_loop()
-    json.dump([run(n, s, loop) for n, s in enumerate(json.load(open(sys.argv[1])))], open(sys.argv[2], 'w'))
+    from _guard import guarded
+    json.dump([guarded(run, 1)(n, s, loop) for n, s in enumerate(json.load(open(sys.argv[1])))], open(sys.argv[2], 'w'))
